@@ -16,16 +16,33 @@ structure Env where
   fl    : List ((Nat × Nat) × Option Nat) := []
   vf    : List ((Nat × Nat) × VRes) := []
   gb    : List Nat := []
+  cpl   : List (Nat × List Nat) := []
+  evs   : List CpEv := []
 
 def Env.H (e : Env) : FHash → Hdr → Hdr :=
   fun f p => (e.htab.get? (f, p)).getD (1000000000 + f * 100003 + p)
 
-def Env.clearRound (e : Env) : Env := { e with resps := [], fl := [], vf := [], gb := [] }
+def Env.clearRound (e : Env) : Env := { e with resps := [], fl := [], vf := [], gb := [], cpl := [], evs := [] }
 
 def optNat (s : String) : Option Nat := if s == "-" then none else s.toNat?
 
-def Env.net (e : Env) (pick : Nat) : Net :=
-  { peers := (List.range e.np).map (· + 1)
+def insertAll (x : Nat) : List Nat → List (List Nat)
+  | [] => [[x]]
+  | y :: ys => (x :: y :: ys) :: (insertAll x ys).map (y :: ·)
+
+def perms : List Nat → List (List Nat)
+  | [] => [[]]
+  | x :: xs => (perms xs).flatMap (insertAll x)
+
+def Env.allPeers (e : Env) : List Nat := (List.range e.np).map (· + 1)
+
+/-- the iteration orders of the peer map worth distinguishing: one, unless some
+peer advertises the all-zero hash (the sentinel of the mismatch test) -/
+def Env.orders (e : Env) : List (List Nat) :=
+  if e.resps.any (fun r => r.2.hashes.contains 0 || r.2.prev == 0) then perms e.allPeers else [e.allPeers]
+
+def Env.net (e : Env) (pick : Nat) (order : List Nat := e.allPeers) : Net :=
+  { peers := order
     resps := fun p => (e.resps.filter (·.1 == p)).map (·.2)
     served := fun p h => ((e.fl.find? (fun x => x.1 == (p, h))).map (·.2)).getD none
     verify := fun f h => ((e.vf.find? (fun x => x.1 == (f, h))).map (·.2)).getD (.ok 0)
@@ -79,6 +96,13 @@ def showW : WOut → String
   | .ok l h => s!"ok {l} {h}" | .errTip => "err tip" | .errPrev => "err prev" | .errAnc => "err anc"
   | .misaligned => "err misaligned"
 
+def showRC : RCOut → String
+  | .ok l => s!"ok [{" ".intercalate (l.map toString)}]"
+  | .errNoCp => "err nocp" | .errNoLong => "err nolong" | .errBaseline => "err baseline"
+  | .errMismatched => "err mismatched" | .t e => showT e
+
+def Env.hardFn (e : Env) : Nat → Option Nat := fun h => (e.hard.find? (·.1 == h)).map (·.2)
+
 def peersOfBans (l : List String) : List Nat :=
   l.map (fun s => nat! ((s.splitOn ":").headD "0"))
 
@@ -126,6 +150,14 @@ def runCase : CaseFn := fun c => Id.run do
     | ["vf", h, f, r] =>
       e := { e with vf := e.vf ++ [((nat! f, nat! h), if r == "b" then VRes.bad else VRes.ok (nat! r))] }
     | ["gb", h] => e := { e with gb := nat! h :: e.gb }
+    | ["hard", h, x] => e := { e with hard := e.hard ++ [(nat! h, nat! x)] }
+    | "cpl" :: p :: rest =>
+      let (l, _) := bracket rest
+      e := { e with cpl := e.cpl ++ [(nat! p, l.map nat!)] }
+    | "ev" :: p :: k :: so :: prev :: rest =>
+      let (fs, _) := bracket rest
+      e := { e with evs := e.evs ++ [{ peer := nat! p, k := nat! k, stopOk := so == "1", prev := nat! prev,
+                                       hashes := fs.map nat! }] }
     | _ =>
       -- a real operation: observation is "<ret> | <dump>"
       let (ret, dtxt) := match obs.splitOn " | " with
@@ -138,16 +170,16 @@ def runCase : CaseFn := fun c => Id.run do
       let mut cands : List (St × String) := []
       let mut servedLists : List (List Nat) := []
       let mut isRound := false
+      let mut isFetch := false
       let mut cutTo : Option Nat := none
       match ws with
       | "init" :: rest =>
         let (ids, rest) := bracket rest
-        let ft := match rest with
-          | ["ft", f] => nat! f
-          | _ => 0
+        let fsT := match rest with
+          | "fs" :: r2 => (bracket r2).1.map nat!
+          | _ => [1]
         let blocks := ids.map nat!
-        let fsT := (trueFs e blocks).take (ft + 1)
-        let s0 : St := { blocks := blocks, fstore := fsT, fblk := blocks.take (ft + 1), discBanned := e.disc }
+        let s0 : St := { blocks := blocks, fstore := fsT, fblk := blocks.take fsT.length, discBanned := e.disc }
         cands := [(s0, "- | " ++ showSt s0 s0)]
         chain := blocks
         oldFs := fsT
@@ -170,9 +202,26 @@ def runCase : CaseFn := fun c => Id.run do
         servedLists := [fs.map nat!]
       | ["tipround"] =>
         isRound := true
+        for order in e.orders do
+          for pick in List.range (max 1 e.np) do
+            let r := tipRound H st (e.net pick order)
+            let txt := showT r.2 ++ " | " ++ showSt st r.1
+            if !cands.any (fun x => x.2 == txt) then
+              cands := cands ++ [(r.1, txt)]
+      | ["sanity"] =>
+        let r := checkSanity 1000 st.fstore e.cpl
+        cands := [(st, (match r with | none => "-1" | some i => toString i) ++ " | " ++ showSt st st)]
+      | ["resolve"] =>
         for pick in List.range (max 1 e.np) do
-          let r := tipRound H st (e.net pick)
-          cands := cands ++ [(r.1, showT r.2 ++ " | " ++ showSt st r.1)]
+          let r := resolveConflict 1000 e.hardFn st (e.net pick) e.cpl
+          let txt := showRC r.2 ++ " | " ++ showSt st r.1
+          if !cands.any (fun x => x.2 == txt) then
+            cands := cands ++ [(r.1, txt)]
+      | "cpfetch" :: rest =>
+        let (cps, _) := bracket rest
+        isFetch := true
+        let r := cpRound H 1000 st (cps.map nat!) e.evs
+        cands := [(r.1, (match r.2 with | .ok => "ok" | .panic => "PANIC") ++ " | " ++ showSt st r.1)]
       | _ => out := out.push s!"DIFF C03 case {c.num} line {ln}: unknown op <{op}>"
       if !diverged then
         match cands.find? (fun x => x.2 == obs) with
@@ -182,7 +231,7 @@ def runCase : CaseFn := fun c => Id.run do
           out := out.push s!"DIFF C03 case {c.num} line {ln}: {op} impl=<{obs}> model∈<{alts}>"
           diverged := true
       -- ---------- oracle (implementation observations + ground truth only) ----------
-      if ret == "PANIC" || ret == "HANG" then
+      if (ret == "PANIC" && !isFetch) || ret.endsWith "HANG" then
         out := out.push (fail "crash" s!"call ended in {ret}")
       if !notAheadObs d.btH d.ftH d.fs then
         out := out.push (fail "ahead" "filter-header store ahead of the block-header store, or its tip is not its last entry")
@@ -193,8 +242,11 @@ def runCase : CaseFn := fun c => Id.run do
         if !cutObs h d.fs then
           out := out.push (fail "survives-disconnect" s!"filter header above height {h} survived the disconnection of its block")
       | none => pure ()
-      if !checkpointsObs e.hard d.fs then
-        out := out.push (fail "checkpoint" "stored filter header differs from a hard-coded checkpoint")
+      if !checkpointsObs e.hard d.fs && checkpointsObs e.hard oldFs then
+        if isRound || ws.head? == some "wr" then
+          out := out.push (fail "tip-path-skips-hardcoded-checkpoint" "a filter header committed on the at-tip path differs from the hard-coded checkpoint at its height")
+        else
+          out := out.push (fail "checkpoint" "stored filter header differs from a hard-coded checkpoint")
       if isRound then
         let start := oldFs.length
         let stopH := if oldBt - start ≥ maxPerMsg then start + maxPerMsg - 1 else oldBt
@@ -213,7 +265,10 @@ def runCase : CaseFn := fun c => Id.run do
             let what := if appended != chainFrom H r.tip r.truthSlice then "a false filter header was committed (or none)"
                         else "a liar was not banned or an honest peer was"
             out := out.push (fail shape s!"an honest peer answered and every false value was provably inconsistent, yet {what}; true={r.truthSlice}")
-      if !appendedObs H oldFs d.fs servedLists then
+      if isFetch then
+        if !cpAppendedObs H 1000 e.evs oldFs d.fs then
+          out := out.push (fail "unserved" "filter headers appended by the checkpointed fetch are not hash chains of delivered batches, each starting at the then-current tip")
+      else if !appendedObs H oldFs d.fs servedLists then
         out := out.push (fail "unserved" "appended filter headers are not the hash chain of any served batch starting at the old tip")
       oldFs := d.fs
       oldBt := d.btH.getD 0
